@@ -297,8 +297,8 @@ class DigitalLineScaler(object):
 
     def postprocess_data(self, data):
         bit_offset = self.raw_bit_offset % 8
-        bitmask = 1 << bit_offset
-        return np.right_shift(np.bitwise_and(data, bitmask), bit_offset)
+        # Shift first so that the mask is always 1: a mask of 1 << 7 does not fit a signed 8 bit scaler type
+        return np.bitwise_and(np.right_shift(data, bit_offset), 1)
 
     def __repr__(self):
         properties = (
